@@ -2,6 +2,7 @@ package main
 
 import (
 	"bufio"
+	"fmt"
 	"os"
 	"strings"
 )
@@ -18,6 +19,16 @@ func forEachEmitted(path, tag string, f func(js string) error) error {
 	sc := bufio.NewScanner(fh)
 	sc.Buffer(make([]byte, 1<<20), 1<<26)
 	prefix := `"` + tag + ` `
+	// VH_PROGRESS_FILE: the ordinal of the case about to run is kept in a side file, so that the parent of a
+	// worker that dies knows which case killed it
+	var prog *os.File
+	if pf := os.Getenv("VH_PROGRESS_FILE"); pf != "" && tag != "L" {
+		prog, _ = os.OpenFile(pf, os.O_CREATE|os.O_WRONLY, 0o644)
+		if prog != nil {
+			defer prog.Close()
+		}
+	}
+	n := 0
 	for sc.Scan() {
 		line := sc.Text()
 		if !strings.HasPrefix(line, prefix) || !strings.HasSuffix(line, `"`) {
@@ -26,6 +37,10 @@ func forEachEmitted(path, tag string, f func(js string) error) error {
 		line = line[len(prefix) : len(line)-1]
 		if strings.IndexByte(line, '\\') >= 0 {
 			line = unescapeTLA(line)
+		}
+		n++
+		if prog != nil {
+			_, _ = prog.WriteAt([]byte(fmt.Sprintf("%-12d", n)), 0)
 		}
 		if err := f(line); err != nil {
 			return err
